@@ -339,6 +339,41 @@ def N3(ctx: Ctx) -> RuleResult:
                         note_test(comp.elt, comp.gens[0][1])
     (r.ok('each positional argument: not can_be(parameter) -> reject') if pos_ok else r.fail('FunctionSignature.accepts:positional', 'positional arguments are not each tested with can_be against their parameter type', fi.where))
     (r.ok('each extra argument: not can_be(variadic) -> reject') if var_ok else r.fail('FunctionSignature.accepts:variadic', 'extra arguments are not each tested with can_be against the variadic type', fi.where))
+
+    # ... and that test is on the way of every accepting path of a variadic overload with extra arguments
+    def tests_variadic(o) -> bool:
+        terms = [o.value] if o.value is not None else []
+        terms += [g for g, _ in o.guards]
+        for e in o.effects:
+            terms.append(e)
+            if isinstance(e, Loop):
+                terms += [g for rg, _ in e.returns for g, _ in rg] + [e.iter]
+        for t in terms:
+            for x in walk(t):
+                if isinstance(x, Call) and call_name(x) == 'can_be' and x.args and x.args[0] == Attr(self_t, 'variadic'):
+                    return True
+                if isinstance(x, Call) and isinstance(x.func, Ext) and x.func.name.endswith('repeat') and x.args and x.args[0] == Attr(self_t, 'variadic'):
+                    return True
+        return False
+    skipped = None
+    for na, npar in ((2, 1), (3, 1), (1, 0)):
+        for o in outs:
+            if not (o.kind == 'return' and o.value != Const(False)):
+                continue
+            feasible = True
+            for t, pol in o.guards:
+                if isinstance(t, Op) and t.op == 'iterating':
+                    continue
+                try:
+                    if bool(value(t, na, npar, True)) != pol:
+                        feasible = False
+                        break
+                except Undecided:
+                    pass
+            if feasible and not tests_variadic(o):
+                skipped = f'nargs={na} nparams={npar} variadic: [{guards_repr(o.guards)[:90]}] -> {str(o.value)[:40]}'
+    if skipped and var_ok:
+        r.fail('FunctionSignature.accepts:variadic-skipped', f'a variadic overload accepts extra arguments on a path that never tests them against the variadic type ({skipped}): max(1, 2, "a") is accepted', fi.where)
     # check_arguments
     fd = ctx.model.cls('FunctionDefinition', 'N3')
     ca = fd.methods.get('check_arguments')
@@ -391,6 +426,8 @@ def A8(ctx: Ctx) -> RuleResult:
                     r.ok(f'{key}: returns {str(leaf)[:50]}')
                 elif src['raw'] or src['first']:
                     r.ok(f'{key}: returns {str(leaf)[:50]}')
+                elif isinstance(leaf, Sub) and isinstance(leaf.index, Const) and isinstance(leaf.index.value, int) and any(isinstance(x, Attr) and x.name == 'constants' for x in walk(leaf.base)):
+                    r.fail(key + ':constants', f'returns component [{leaf.index.value}] of an entry of .constants ({str(leaf)[:60]}): entries are (type token, value) pairs and the token is component [0]', f'{fi.module.relpath}:{o.lineno}')
                 else:
                     r.notes.append(f'{key}: return value {str(leaf)[:40]} not from fields/constants')
         if n_ret == 0:
@@ -399,7 +436,10 @@ def A8(ctx: Ctx) -> RuleResult:
     fi = mt.methods.get('contains_name')
     outs = ctx.ev.run(fi, {'self': Sym('self', 'MessageType'), 'name': Sym('name')})
     txt = ' '.join(repr(o.value) for o in outs)
-    if len(outs) == 1 and isinstance(outs[0].value, Op) and outs[0].value.op == 'or' and '.fields' in txt and '.constants' in txt:
+    nm = Sym('name')
+    st = Sym('self', 'MessageType')
+    want_parts = {Op('in', (nm, Attr(st, 'fields'))), Op('in', (nm, Attr(st, 'constants')))}
+    if len(outs) == 1 and isinstance(outs[0].value, Op) and outs[0].value.op == 'or' and set(outs[0].value.args) == want_parts:
         r.ok('contains_name: name in fields or name in constants')
     else:
         r.fail('MessageType.contains_name', f'not "name in fields or name in constants": {txt[:100]}', fi.where)
